@@ -115,6 +115,9 @@ pub fn gen(app: App, flavor: Flavor, over_tcp: bool, rng: &mut Rng) -> Vec<u8> {
                 let n = *rng.pick(&[4000usize, 8192, 12000, 20000]);
                 c.args = rng.bytes(n);
             }
+            if over_tcp && rng.chance(1, 12) {
+                return c.encode_tcp_fragments(rng);
+            }
             if over_tcp {
                 c.encode_tcp()
             } else {
